@@ -40,6 +40,8 @@ EXPECTED_PROBES = {
     "thorough": ["socket_runs", "stall_runs", "serial_runs", "short_reads", "enum_wires", "items_delivered"],
 }
 
+LONG_RUN_EVERY = 307  # one seeded scenario in 307 starts with >= 1100 tiny frames of one or two kinds
+GIANT_RUN_EVERY = 30011  # one in 30 011: > 65535 tiny frames of one kind
 
 def generate(seed: int, tier: str = "quick") -> dict:
     r_cfg = core.stream(seed, "config")
@@ -60,10 +62,28 @@ def generate(seed: int, tier: str = "quick") -> dict:
         frames = frames[:3]
         frames.insert(r_cfg.randrange(len(frames) + 1), {"kind": "ubx", "hex": data.hex(), "faults": [], "note": f"block-size frame payload {nbig}"})
         pre.hit("block_size_frames")
+    lengthy = None
+    if seed % GIANT_RUN_EVERY == GIANT_RUN_EVERY - 1:
+        frames = common.giant_run_frames(r_dev, pre)[0] + frames[:2]
+        lengthy = "giant"
+    elif seed % LONG_RUN_EVERY == LONG_RUN_EVERY - 1:
+        run, _style = common.long_run_frames(r_dev, pre)
+        frames = [dict(f, kind="garbage") if f["kind"] == "noise" else f for f in run] + frames[:3]
+        lengthy = "long"
     spans = sched.spans_of(frames)
     wire_len = spans[-1][1] if spans else 0
     roll = r_sch.random()
-    if roll < 0.38:
+    if lengthy:
+        # thousands of frames: plain transports with real-world buffer sizes (what matters here is the count)
+        if roll < 0.5:
+            tr = {"kind": r_sch.choice(("file", "bytesio", "pipe"))}
+        else:
+            sizes = sched.random_segments(r_sch, wire_len, spans, style="few")
+            tr = {"kind": "socket", "segments": sched.timed_segments(r_sch, sizes, 2.0), "timeout": 2.0, "end": r_sch.choice(("close", "timeout")), "host_delay": 0.0}
+            cfg["bufsize"] = r_sch.choice((64, 1024, 4096))
+        if cfg["quitonerror"] == 2:
+            cfg["quitonerror"] = r_sch.choice((0, 1))
+    elif roll < 0.38:
         tr = {"kind": "file"}
     elif roll < 0.42:
         tr = {"kind": "capfile", "cap": r_sch.choice((1, 2, 3, 7, 16, 20, 64))}
@@ -108,6 +128,8 @@ def generate(seed: int, tier: str = "quick") -> dict:
                 s[0] = round(s[0] + 2.0, 6)
         segs.sort(key=lambda s: s[0])
         tr = {"kind": "serial", "segments": segs, "timeout": 1.0, "stress": "short_read", "rereads": 6}
+    if tr["kind"] in ("file", "bytesio", "buffered", "pipe", "capfile") and r_sch.random() < 0.35:
+        cfg["second_pass"] = True
     return {"seed": seed, "config": cfg, "frames": frames, "transport": tr, "pre_faults": dict(pre)}
 
 
